@@ -401,3 +401,16 @@ mod tests {
         assert_eq!(CommandParser::new(&format!("{} something", input)).parse(), expected);
     }
 }
+
+/// Verification hooks (only compiled with `--cfg inkayaku_verif`): expose the private token-level parsers.
+#[cfg(inkayaku_verif)]
+impl<'a> CommandParser<'a> {
+    pub fn verif_from_tokens(tokens: Vec<&'a str>) -> Self { Self { queue: RefCell::new(VecDeque::from(tokens)) } }
+    pub fn verif_go_tokens() -> &'static [&'static str] { &Self::GO_TOKENS }
+    pub fn verif_parse_moves_until_go_token_or_end(&self) -> Result<Vec<UciMove>, ParserError> { self.parse_moves_until_one_of_or_end(&Self::GO_TOKENS) }
+    pub fn verif_parse_moves(&self) -> Result<Vec<UciMove>, ParserError> { self.parse_moves() }
+    pub fn verif_parse_duration_millis(&self) -> Result<u128, ParserError> { self.parse_duration().map(|d| d.as_millis()) }
+    pub fn verif_parse_u64(&self) -> Result<u64, ParserError> { self.parse_u64() }
+    pub fn verif_next(&self) -> Option<&str> { self.next().ok() }
+    pub fn verif_remaining(&self) -> usize { self.queue.borrow().len() }
+}
